@@ -58,6 +58,9 @@ def tunnel_encaps(rng):
         if rng.random() < 0.4:
             six = rng.random() < 0.5
             v['6'] = {'asn': rng.choice(gen.ASN4), 'afi': 'ipv6' if six else 'ipv4', 'address': gen.ipv6(rng, 'doc') if six else gen.ipv4(rng)}
+            if rng.random() < 0.25:
+                # the family named in another spelling or not matching the address: refused, or encoded with matching lengths
+                v['6']['afi'] = rng.choice(['IPv6', 'ipv6 ', 'inet6', 'IPV4', 'ipv4', 'ipv6', None, 2, 1, ''])
     nl = rng.choice([0, 1, 1, 2, 4])
     if nl:
         lists = []
